@@ -158,6 +158,25 @@ impl Monitor for C02 {
                                     v.finding = Some("S9-stableswap-skewed-pool-accuracy".into());
                                     v.truncate = false;
                                 }
+                                // the same envelope one step inside: the swap leg of a single-asset deposit
+                                // can drain the other asset far beyond 1000:1 (half of a deposit larger than
+                                // the pool, high amplification); the deposit leg is then priced on that
+                                // degenerate intermediate state, which the swap's own event reports
+                                if single && v.finding.is_none() {
+                                    let mid = out
+                                        .attrs()
+                                        .iter()
+                                        .find(|(k, _)| k == "pool_reserves")
+                                        .and_then(|(_, rs)| super::c03::parse_reserves(rs, pi));
+                                    if let Some(mid) = mid {
+                                        if super::c03::degenerate(pi, &mid) {
+                                            v.finding = Some("S9-stableswap-skewed-pool-accuracy".into());
+                                            v.truncate = false;
+                                            v.detail.push_str(&format!(" [reserves between the two legs: {:?}]", mid));
+                                            c.stats.bump("probe.c02.single_asset_deposit_through_degenerate_state");
+                                        }
+                                    }
+                                }
                                 // envelope S8: the minting invariant is only accurate to a few units (integer
                                 // Newton), so the mint can exceed the exact growth by those few units
                                 if v.finding.is_none() {
